@@ -704,7 +704,11 @@ def check_split(path, log_entries, scratch, pick, probes):
     db = Database(work, "a")
     db.open()
     try:
-        backup = db.splitDatabase([_group_time(nm) for nm in keep], "-all")
+        steps_to_keep = [_group_time(nm) for nm in keep]
+        if (pick >> 7) & 1:
+            steps_to_keep.reverse()  # the order in which the caller lists the steps is the caller's business
+            probes["split_steps_listed_descending"] += 1
+        backup = db.splitDatabase(steps_to_keep, "-all")
     finally:
         db.close()
     with h5py.File(backup, "r") as bk:
